@@ -194,9 +194,9 @@ class ModelBuilder(object):
                     inherit_condition = adapt_columns(
                         mapper.inherit_condition
                     )
-                    tx_column_name = self.manager.options[
-                        'transaction_column_name'
-                    ]
+                    tx_column_name = option(
+                        self.model, 'transaction_column_name'
+                    )
                     args['inherit_condition'] = sa.and_(
                         inherit_condition,
                         getattr(parent.__table__.c, tx_column_name) ==
